@@ -10,14 +10,26 @@ PROPERTY = 'C12'
 LEAN_PROPS = 'PlumpyModel.Props.C12'
 ASSUMPTIONS = [
     'validators are pure oracles (the harness uses "reject every value mentioning atom n")',
-    'value domain: int (including the falsy 0) and float atoms, plain nested dicts; emitted values are not mutated by user code afterwards',
+    'value domain: int (including the falsy 0) and float atoms, plain nested dicts and immutable mappings (AttributesFrozendict: a Mapping '
+    'that is not a dict), nested in each other in every way; emitted values are not mutated by user code afterwards',
+    'an emitted immutable mapping is a VALUE: a leaf for the recursion of validate_dynamic_ports, no instance of dict, and nothing can be '
+    'stored below it (TypeError directly below, AttributeError deeper - like below an int); its keys do not name dict methods '
+    '(AttributesFrozendict answers attribute reads from its keys: with a callable under the key "setdefault" the storage loop of out() '
+    'would call it - not generated)',
     'out() is called from the step function of a process run with execute() on a stock asyncio loop, exceptions of out() are caught by '
     'the step; no control requests (those are C01-C06)',
     'one process per class: the output spec is class-level state that out() extends by dynamic creation; the harness builds a fresh '
     'class per case and reads the spec back through the public mapping API before every emission',
 ]
 TRUSTED = ['output-side model lean/PlumpyModel/Ports/Out.lean (hand-written, compared with real runs per emission: outcome / exception '
-           'class, dynamic flag, listener notification, outputs tree, port-name tree of the spec; then state, successful, result, future)']
+           'class, dynamic flag, listener notification, outputs tree with plain dicts {..} and immutable mappings <..> told apart by trying an '
+           'item assignment, port-name tree of the spec; then state, successful, result, future)',
+           'reference rule of the monitors (harness/ports_gen.py: ref_accepts_out, ref_dyn_ok, ref_insert, ref_conforms_ns), a transcription of '
+           'the property text, not a call into plumpy',
+           'implementation-only stream (a test, no model behind it): a spec whose PORT_NAMESPACE_TYPE is a stricter PortNamespace subclass '
+           '(port names and dynamic keys must be identifiers, dynamic int leaves non-negative), emissions through namespaces created on the '
+           'fly at depth 1..3; oracle strict_expect / strict_conforms written from that rule, evaluated on the port names of the spec as '
+           'read back through the mapping API before every emission']
 
 _LOOP = None
 
@@ -227,7 +239,7 @@ def out_trees(n):
 
 
 SMALL_PATHS = ['a', 'b', 'a.a', 'a.b', 'z', 'z.y', 'a.z.y']
-SMALL_VALUES = [('A', 0, 1), ('A', 1, 2), ('A', 0, 0), ('D', []), ('D', [('a', ('A', 0, 2))])]
+SMALL_VALUES = [('A', 0, 1), ('A', 1, 2), ('A', 0, 0), ('D', []), ('D', [('a', ('A', 0, 2))]), ('F', [('a', ('A', 0, 2))]), ('F', [])]
 SMALL_OPS = [(p, v) for p in SMALL_PATHS for v in SMALL_VALUES]
 SMALL_TOPS = [(True, False, None, None), (True, True, None, None), (True, True, 0, None), (True, False, None, 1)]
 
@@ -283,7 +295,14 @@ def bad_op(rng, top, sub, ops):
         return (q, ('D', pg.gen_good_items(rng, (p[1], p[4], p[2], p[6]), p[7], set())))
     if kind == 'below-value' and ops:
         q, v = rng.choice(ops)
-        return (q + '.x', ('A', 0, 1))
+        # below an emitted value, one to three segments deep, along its own keys where it has any (a mapping that was emitted
+        # plain can be extended, an immutable one - see '+frozen' - cannot, at whatever depth it sits) or at a new key
+        for _k in range(rng.randint(1, 3)):
+            keys = [k for k, _ in v[1]] if v[0] != 'A' else []
+            k = rng.choice(keys) if keys and rng.random() < 0.7 else 'x'
+            q += '.' + k
+            v = dict(v[1]).get(k, ('A', 0, 1)) if v[0] != 'A' else v
+        return (q, ('A', 0, 1))
     if kind == 'empty-seg':
         return (rng.choice(['', '.x', 'x.', 'x..y', 'a.', '.']), ('A', 0, 1))
     if kind == 'dict-at-leaf' and leaves:
@@ -310,6 +329,25 @@ def gen_cases(ctx):
     add('corpus', (True, False, None, None), [('x', ('L', True, 0, None, False, None))], [('x', ('A', 1, 1)), ('y', ('A', 0, 1)), ('y.z', ('A', 0, 1))])
     add('corpus', (True, False, None, None), [('x', ('L', True, 0, None, False, None))], [('x', ('A', 0, 1))], fin_ok=False, result=9)
     add('corpus', (True, False, None, None), [('x', ('L', True, 0, None, False, None))], [('x', ('A', 0, 1))])
+    # emitted immutable mappings (values, not places to store below): the false alarm of round 5 and its neighbours
+    add('corpus', (True, True, None, None), [], [('q', ('F', [])), ('q.x', ('A', 0, 1)), ('q.x.y', ('A', 0, 1)), ('q', ('D', [])), ('q.x.y', ('A', 0, 1))])
+    add('corpus', (True, True, None, None), [], [('q', ('D', [('a', ('F', [('b', ('D', []))]))])), ('q.a.z', ('A', 0, 1)), ('q.a.b.c', ('A', 0, 1)),
+                                                  ('q.z', ('A', 0, 1)), ('q.a', ('D', [])), ('q.a.b.c', ('A', 0, 1))])
+    add('corpus', (True, True, 0, None), [], [('q', ('F', [('a', ('A', 0, 1))])), ('q', ('D', [('a', ('F', []))])), ('q', ('D', [('a', ('A', 0, 1))]))])
+    fz_subs = [[('a', ('N', False, None, None, True, True, None, [('a', ('L', False, 0, None, False, None))])), ('b', ('L', False, None, None, False, None))],
+               [('a', ('N', True, 0, None, True, True, None, []))]]
+    fz_first = [('F', []), ('F', [('a', ('A', 0, 1))]), ('F', [('a', ('F', []))]), ('F', [('a', ('D', []))]), ('D', [('a', ('F', []))]),
+                ('D', [('a', ('F', [('b', ('D', []))]))]), ('D', [('a', ('D', [('b', ('F', []))]))])]
+    for top in ((True, True, None, None), (True, True, 0, None), (True, False, None, None)):
+        for sub in fz_subs:
+            for base in ('q', 'a', 'a.q', 'b'):
+                for v1 in fz_first:
+                    for suffix in ('.a', '.x', '.a.b', '.a.x', '.a.b.c', '.a.b.c.d'):
+                        for v2 in (('A', 0, 1), ('F', [])):
+                            add('frozen-below', top, sub, [(base, v1), (base + suffix, v2)])
+                    # overwritten by a plain dict, the place is free again
+                    add('frozen-below', top, sub, [(base, v1), (base + '.a.b', ('A', 0, 1)), (base, ('D', [])), (base + '.a.b', ('A', 0, 1))],
+                        fin_ok=top[2] is None)
     # bounded-exhaustive: every output spec with <= 2 ports x every single emission of the small alphabet + sampled pairs
     n_pairs = 60 if ctx.thorough else 14
     n_specs = 0
@@ -338,6 +376,10 @@ def gen_cases(ctx):
                 ops.insert(rng.randint(0, len(ops)), bad_op(rng, top, sub, ops))
             if rng.random() < 0.2 and ops:
                 del ops[rng.randrange(len(ops))]
+        if rng.random() < 0.2:
+            # some of the emitted mappings are immutable ones (a non-dict Mapping: a leaf value for the dynamic recursion)
+            ops = [(q, pg.freeze_some(rng, v, 0.5)) for q, v in ops]
+            stream += '+frozen'
         add(stream, top, sub, ops[:8], fin_ok=rng.random() < 0.85, result=rng.randint(0, 9))
     return cases, streams, n_specs
 
@@ -381,9 +423,12 @@ def run_main(ctx):
     failures.sort(key=lambda f: len(str(f['case'])))          # report the smallest failing input first
     return dict(
         evaluations=len(cases), distinct_nontrivial=len(distinct),
-        rule='every output spec with <= 2 ports over the attribute alphabet x (no emission, every single emission of a 35-element alphabet, '
-             'sampled pairs/triples), plus random output specs with <= 6 ports x emission plans that build conforming outputs, perturbed by '
-             'wrong types, unknown / dynamic / through-a-leaf / empty-segment paths, values at namespace paths; non-trivial = >= 2 emissions '
+        rule='every output spec with <= 2 ports over the attribute alphabet x (no emission, every single emission of a 49-element alphabet '
+             '(7 paths x 7 values, two of them immutable mappings), sampled pairs/triples), an enumerated stream of emissions 1..4 segments '
+             'below an emitted immutable mapping (at the top / inside a plain dict / at a declared namespace) incl. overwriting it, plus '
+             'random output specs with <= 6 ports x emission plans that build conforming outputs, perturbed by '
+             'wrong types, unknown / dynamic / through-a-leaf / empty-segment / below-an-emitted-value paths, values at namespace paths, '
+             'a fifth of them with some emitted mappings immutable; non-trivial = >= 2 emissions '
              'with at least one stored; distinct = distinct observation streams',
         samples=[dict(line=lines[i], impl=impl_line(impl[i])) for i in (0, len(cases) // 2, len(cases) - 1)],
         traces_validated=len(cases) if model is not None else 0,
@@ -396,6 +441,9 @@ def replay(ctx, failure):
     case = failure['case']
     if case.get('late_stream'):
         return dict(failures=[dict(signature=f['signature'], detail=f['detail']) for f in late_emission_stream()])
+    if case.get('subclass_stream'):
+        c = eval(case['raw'], {'int': int})                 # the case as generated (written by this harness into the replay file)
+        return dict(failures=[dict(signature=f['signature'], detail=f['detail']) for f in strict_monitors(c, run_strict_case(c))])
     if 'program' in case:
         from harness import pm_prop
         return pm_prop.replay_pm(ctx, failure, ['c12pm'])
@@ -456,6 +504,304 @@ def late_emission_stream():
     return fails
 
 
+# ---------------------------------------------------------------- impl-only: a spec with its own port namespace class
+# `ProcessSpec.PORT_NAMESPACE_TYPE` gives a process family its own kind of port namespace (aiida-core restricts port names to
+# valid link labels this way).  The class below is stricter than the stock one in two ways; both are part of the output spec at
+# EVERY depth of a dynamic namespace, also in the namespaces that `out()` creates on the fly:
+#   names : a port (declared or created on the fly) must be named by a Python identifier (`__setitem__` raises ValueError),
+#           and so must every key of a dynamic value, through nested plain dicts;
+#   values: an int leaf of a dynamic value must not be negative.
+STRICT_GOOD_NAMES = ['run_1', 'x', 'step2', 'e_tot']
+STRICT_BAD_NAMES = ['run-1', '2x', 'a b', 'e-tot', '']
+STRICT_VALUES = [3, 0, -1, 2.5, {'k': 1}, {'k': {'j': 2}}, {'bad-key': 1}, {'k': {'e-tot': 1}}, {'k': -1}, {'k': 2.5}, {},
+                 ('F', {'k': 1}), ('F', {'bad-key': -1})]
+
+
+def _strict_classes():
+    common.ensure_repo_on_path()
+    import plumpy
+    from plumpy import ports
+
+    def bad_in(value, breadcrumbs):
+        """first offence of a dynamic value against the two rules, through plain dicts (an immutable mapping is a leaf)"""
+        if isinstance(value, dict):
+            for key, sub in value.items():
+                if not (isinstance(key, str) and key.isidentifier()):
+                    return f"'{key}' is not a valid label", (*breadcrumbs, key)
+                r = bad_in(sub, (*breadcrumbs, key))
+                if r:
+                    return r
+        elif isinstance(value, int) and value < 0:
+            return 'negative', breadcrumbs
+        return None
+
+    class StrictNamespace(ports.PortNamespace):
+        def __setitem__(self, name, port):
+            if not name.isidentifier():
+                raise ValueError(f"'{name}' is not a valid port name")
+            super().__setitem__(name, port)
+
+        def validate_dynamic_ports(self, port_values, breadcrumbs=()):
+            r = bad_in(port_values, (*breadcrumbs, self.name))
+            if r:
+                return ports.PortValidationError(r[0], ports.breadcrumbs_to_port(r[1]))
+            return super().validate_dynamic_ports(port_values, breadcrumbs)
+
+    class StrictSpec(plumpy.ProcessSpec):
+        PORT_NAMESPACE_TYPE = StrictNamespace
+
+    return StrictNamespace, StrictSpec
+
+
+def strict_py(v):
+    if isinstance(v, tuple):
+        from plumpy import utils
+        return utils.AttributesFrozendict({k: strict_py(x) for k, x in v[1].items()})
+    if isinstance(v, dict):
+        return {k: strict_py(x) for k, x in v.items()}
+    return v
+
+
+def strict_rule_ok(v):
+    """the subclass's rule on a dynamic value: identifier keys and no negative int, through nested plain dicts"""
+    if isinstance(v, dict):
+        return all(k.isidentifier() and strict_rule_ok(x) for k, x in v.items())
+    return not (isinstance(v, int) and v < 0)
+
+
+def strict_type_ok(v, ty):
+    """the stock rule of a typed dynamic namespace: leaves of the type, plain dicts nest, anything else is a leaf"""
+    if isinstance(v, dict):
+        return all(strict_type_ok(x, ty) for x in v.values())
+    return isinstance(v, ty)
+
+
+def strict_tree(ns):
+    """the port names of a real namespace, read through the public mapping API: {name: 'L' | subtree}"""
+    from plumpy import ports
+    return {k: strict_tree(p) if isinstance(p, ports.PortNamespace) else 'L' for k, p in ns.items()}
+
+
+def strict_conforms(tree, dynamic, ty, v):
+    """a value for the namespace with port names `tree` (all of whose leaf ports are optional ints): empty, or a mapping whose
+    declared entries conform to their ports and whose other entries are dynamic values obeying the class's rules and the type.
+    A namespace below `data` has the attributes of `data`, one created at the top those of `spec.outputs`."""
+    if not isinstance(v, (dict, tuple)):
+        return not v                                         # any falsy value counts as the empty mapping
+    items = v if isinstance(v, dict) else v[1]
+    for k, x in items.items():
+        port = tree.get(k)
+        if port == 'L':
+            if not isinstance(x, int):
+                return False
+        elif port is not None:
+            if not strict_conforms(port, dynamic, ty, x):
+                return False
+        elif not (dynamic and k.isidentifier() and strict_rule_ok(x) and (ty is None or strict_type_ok(x, ty))):
+            return False
+    return True
+
+
+def strict_expect(spec, tree, before, path, v):
+    """the oracle, from the rule only.  `spec` = (top_dynamic, data_type): `spec.outputs` (dynamic or not, untyped) holds one declared
+    dynamic namespace `data` (of type `data_type` or untyped) with one declared optional int leaf `data.fixed`; `tree` are the port
+    names of the output spec as it is before the call (earlier calls create namespaces).  Returns
+    'store' | 'reject' (ValueError, outputs unchanged) | 'raise' (some exception: the path runs through a leaf port or below a value)"""
+    top_dynamic, data_ty = spec
+    segs = path.split('.')
+    dynamic, ty, top = top_dynamic, None, True
+    for seg in segs[:-1]:
+        port = tree.get(seg)
+        if port == 'L':
+            return 'raise'                                   # through a leaf port: not a name of the spec (its own error classes)
+        if port is not None:
+            if top and seg == 'data':
+                dynamic, ty = True, data_ty
+            tree, top = port, False
+            continue
+        if not seg.isidentifier() or not dynamic:
+            return 'reject'                                  # the name rule holds for namespaces created on the fly, at every level
+        tree, top = {}, False                                # created: attributes and CLASS of the dynamic parent
+    name = segs[-1]
+    port = tree.get(name)
+    if port == 'L':
+        ok = isinstance(v, int)
+    elif port is not None:
+        a = (True, data_ty) if top and name == 'data' else (dynamic, ty)
+        ok = strict_conforms(port, a[0], a[1], v)
+    else:
+        ok = dynamic and name.isidentifier() and strict_rule_ok(v) and (ty is None or strict_type_ok(v, ty))
+    if not ok:
+        return 'reject'
+    cur = before
+    for seg in segs[:-1]:
+        if seg not in cur:
+            break
+        cur = cur[seg]
+        if not isinstance(cur, dict):
+            return 'raise'                                   # the place is below a stored value
+    return 'store'
+
+
+def strict_cases(rng, n):
+    cases = []
+    for i in range(n):
+        spec = (rng.random() < 0.5, rng.choice([None, int]))
+        ops = []
+        for _ in range(rng.randint(1, 6)):
+            depth = rng.randint(0, 3)                        # number of not (necessarily) yet existing namespaces below the base
+            base = rng.choice(['data', 'data', 'data', None])
+            names = [rng.choice(STRICT_GOOD_NAMES) if rng.random() < 0.8 else rng.choice(STRICT_BAD_NAMES) for _ in range(depth + 1)]
+            if rng.random() < 0.1:
+                names[-1] = 'fixed'
+            segs = ([base] if base else []) + names
+            if rng.random() < 0.05:
+                segs = ['data']
+            v = rng.choice(STRICT_VALUES) if rng.random() < 0.6 else rng.choice([3, 1, 7])
+            ops.append(('.'.join(segs), v))
+        cases.append((spec, ops, rng.random() < 0.9))
+    # the demonstration of the seeded change, as a fixed case
+    cases.append(((False, int), [('data.total', 3), ('data.not-a-label', 1), ('data.run_1.energy', 5), ('data.run_1.final-energy', 7),
+                                 ('data.run_2.step_1.e-tot', 7), ('data.run_2.step_1.etot', 2.5), ('data.run_2.step_1.etot', 7)], True))
+    return cases
+
+
+def strict_plain(x):
+    """a comparable copy of a real outputs tree: plain dicts as dicts, immutable mappings as ('F', dict)"""
+    if pg.is_mapping(x):
+        d = {k: strict_plain(v) for k, v in x.items()}
+        return ('F', d) if pg.is_frozen(x) else d
+    return x
+
+
+def run_strict_case(case):
+    spec, ops, fin_ok = case
+    logging.disable(logging.CRITICAL)
+    StrictNamespace, StrictSpec = _strict_classes()
+    import plumpy
+    rec = []
+
+    class Lis(plumpy.ProcessListener):
+        def __init__(self):
+            super().__init__()
+            self.emitted, self.finished = [], []
+
+        def on_output_emitted(self, process, output_port, value, dynamic):
+            self.emitted.append((output_port, strict_plain(value)))
+
+        def on_process_finished(self, process, outputs):
+            self.finished.append(strict_plain(outputs))
+
+    class P(plumpy.Process):
+        _spec_class = StrictSpec
+
+        @classmethod
+        def define(cls, spec_):
+            super().define(spec_)
+            spec_.outputs.dynamic = spec[0]
+            spec_.output_namespace('data', dynamic=True, valid_type=spec[1], required=False)
+            spec_.output('data.fixed', valid_type=int, required=False)
+
+        def run(self):
+            for path, v in ops:
+                before = strict_plain(self.outputs)
+                tree = strict_tree(self.spec().outputs)
+                n_ev = len(lis.emitted)
+                try:
+                    self.out(path, strict_py(v))
+                    outcome = 'ok'
+                except Exception as e:  # noqa
+                    outcome = 'err ' + type(e).__name__
+                rec.append(dict(outcome=outcome, before=before, tree=tree, after=strict_plain(self.outputs), events=lis.emitted[n_ev:]))
+            return 7 if fin_ok else plumpy.UnsuccessfulResult(7)
+
+    lis = Lis()
+    try:
+        assert isinstance(P.spec().outputs, StrictNamespace) and isinstance(P.spec().outputs['data'], StrictNamespace)
+        p = P(loop=_loop())
+        p.add_process_listener(lis)
+        p.execute()
+        fin = dict(state=p.state.value, successful=bool(p.successful()), result=p.result(), outputs=strict_plain(p.outputs),
+                   future=strict_plain(p.future().result()), finished=list(lis.finished), tree=strict_tree(P.spec().outputs))
+    except BaseException as e:  # noqa
+        return dict(error=type(e).__name__ + ': ' + str(e)[:200], rec=rec)
+    return dict(error=None, rec=rec, fin=fin)
+
+
+def strict_insert(tree, segs, v):
+    out = dict(tree)
+    if len(segs) == 1:
+        out.pop(segs[0], None)
+        out[segs[0]] = v
+    else:
+        out[segs[0]] = strict_insert(tree.get(segs[0], {}), segs[1:], v)
+    return out
+
+
+def strict_monitors(case, r):
+    spec, ops, fin_ok = case
+    fails = []
+    shown = dict(subclass_stream=True, spec=[spec[0], None if spec[1] is None else 'int'], ops=[[q, repr(v)] for q, v in ops], fin_ok=fin_ok,
+                 raw=repr(case).replace("<class 'int'>", 'int'))
+
+    def fail(sig, clause, detail):
+        fails.append(dict(signature=sig, clause=clause, case=shown, detail=detail))
+    if r['error']:
+        fail('strict-run-raised', 'the process runs to FINISHED', r['error'])
+        return fails
+    for i, ((path, v), x) in enumerate(zip(ops, r['rec'])):
+        want = strict_expect(spec, x['tree'], x['before'], path, v)
+        where = dict(op=i, path=path, value=repr(v), outcome=x['outcome'], expected=want)
+        stored = x['outcome'] == 'ok'
+        if stored and want != 'store':
+            fail('strict-out-stored-rejected-value', 'out() stores a value exactly when the output spec (with the rules of its own namespace '
+                 'class, at every level) accepts it', where)
+        elif not stored and want == 'store':
+            fail('strict-out-raised-on-accepted-value', 'out() stores a value exactly when the output spec accepts it', where)
+        if not stored:
+            if want == 'reject' and x['outcome'] != 'err ValueError':
+                fail('strict-out-wrong-error-class', 'ValueError for a rejected value', where)
+            if x['after'] != x['before']:
+                fail('strict-outputs-changed-by-failed-out', 'a failed out() leaves the outputs unchanged', dict(where, after=repr(x['after'])))
+            if x['events']:
+                fail('strict-listener-notified-of-failed-out', 'listeners report stored values', where)
+        elif want == 'store':
+            if x['after'] != strict_insert(x['before'], path.split('.'), v):
+                fail('strict-outputs-not-inserted', 'the value is stored at its (nested) port', dict(where, after=repr(x['after'])))
+            if x['events'] != [(path, v)]:
+                fail('strict-listener-mismatch', 'listeners are told of every stored value', dict(where, events=repr(x['events'])))
+    f = r['fin']
+    if f['state'] != 'finished' or f['result'] != 7:
+        fail('strict-not-finished', 'a normal return ends FINISHED with the result preserved', dict(state=f['state'], result=repr(f['result'])))
+        return fails
+    if not (f['outputs'] == f['future'] and f['finished'] == [f['outputs']]):
+        fail('strict-report-mismatch', 'stored values are what the process future and listeners later report', repr(f))
+    conform = strict_conforms(dict(f['tree'], data={}), spec[0], None, {k: x for k, x in f['outputs'].items() if k != 'data'}) and \
+        strict_conforms(f['tree']['data'], True, spec[1], f['outputs'].get('data', {}))
+    if f['successful'] != (fin_ok and conform):
+        fail('strict-successful-mismatch', 'successful only if the collected outputs satisfy the output spec - with the rules of its '
+             'namespace class at every level - and exactly then for a successful return',
+             dict(outputs=repr(f['outputs']), step_ok=fin_ok, successful=f['successful'], outputs_conform=conform))
+    return fails
+
+
+def strict_namespace_stream(ctx, cases=None):
+    """impl-only (no model behind it; a test, not a proof): emissions through not-yet-existing intermediate namespaces at depth 1..3
+    of a spec whose PORT_NAMESPACE_TYPE is a stricter PortNamespace subclass; oracle = that class's rule at every level"""
+    if cases is None:
+        cases = strict_cases(ctx.rng, 6000 if ctx.thorough else 1500)
+    with mp.Pool(ctx.workers) as pool:
+        res = pool.map(run_strict_case, cases, chunksize=50)
+    fails, hist = [], {}
+    for case, r in zip(cases, res):
+        fails.extend(strict_monitors(case, r))
+        for (path, v), x in zip(case[1], r.get('rec', [])):
+            key = x['outcome'] + ':' + strict_expect(case[0], x['tree'], x['before'], path, v)
+            hist[key] = hist.get(key, 0) + 1
+    fails.sort(key=lambda f: len(f['case']['raw']))
+    return fails, len(cases), hist
+
+
 def run(ctx):
     """the emission / finish-time streams above, plus the missing-output program of the process-control harness under
     every placement of pause / play / future cancellation (the finish-time rule must not depend on the schedule)"""
@@ -469,4 +815,8 @@ def run(ctx):
     out.setdefault('histograms', {})['missing_output_under_schedules'] = dict(cases=sub['evaluations'])
     out['failures'].extend(late_emission_stream())
     out['evaluations'] += 2
+    fails, n, hist = strict_namespace_stream(ctx)
+    out['failures'].extend(fails)
+    out['evaluations'] += n
+    out['histograms']['strict_namespace_class_stream'] = dict(cases=n, outcome_vs_oracle=hist, level='test (implementation only)')
     return out
